@@ -409,6 +409,25 @@ var binE = func() []byte {
 	return m.Encode()
 }()
 
+// binG ("xg") exports hook = xh.boom(4); binF's START-SECTION function is that IMPORTED function, and binF
+// has a memory of its own like binE: the call that runs at its instantiation belongs to another module.
+var binG = func() []byte {
+	m := &wasmb.Module{}
+	ti := m.AddType([]wasmb.ValType{wasmb.I32}, nil)
+	m.Imports = append(m.Imports, wasmb.Import{Module: "xh", Name: "boom", Kind: wasmb.KindFunc, TypeIdx: ti})
+	m.AddFunc(nil, nil, nil, (&wasmb.Code{}).I32Const(4).Call(0).B, "hook")
+	return m.Encode()
+}()
+
+var binF = func() []byte {
+	m := &wasmb.Module{Mem: &wasmb.Limits{Min: 1, Max: 1, HasMax: true}}
+	ti := m.AddType(nil, nil)
+	m.Imports = append(m.Imports, wasmb.Import{Module: "xg", Name: "hook", Kind: wasmb.KindFunc, TypeIdx: ti})
+	st := uint32(0)
+	m.Start = &st
+	return m.Encode()
+}()
+
 const knownCompiledErr = "source module must be compiled before instantiation"
 
 type planOp struct {
@@ -718,7 +737,7 @@ func (c10) Run(t *tape.Tape, cfg sim.Config) (res sim.Result) {
 	}
 	var seq int64
 	transients := map[int]*transient{} // by task id
-	var cmD, cmE wazero.CompiledModule
+	var cmD, cmE, cmF wazero.CompiledModule
 	var memAllocs, memFrees atomic.Int64
 	if !withHandles {
 		if _, err := rt.NewHostModuleBuilder("xh").NewFunctionBuilder().WithFunc(func(_ context.Context, mod api.Module, kind uint32) {
@@ -751,6 +770,12 @@ func (c10) Run(t *tape.Tape, cfg sim.Config) (res sim.Result) {
 		if cmE, err = rt.CompileModule(ctx, binE); err != nil {
 			panic(err)
 		}
+		if _, err = rt.InstantiateWithConfig(ctx, binG, wazero.NewModuleConfig().WithName("xg")); err != nil {
+			panic(err)
+		}
+		if cmF, err = rt.CompileModule(ctx, binF); err != nil {
+			panic(err)
+		}
 	}
 	names := []string{"", "a", "b"}
 	nclients := t.Range(2, 4)
@@ -769,7 +794,7 @@ func (c10) Run(t *tape.Tape, cfg sim.Config) (res sim.Result) {
 				p.name = tape.Pick(t, []string{"a", "b", "hostm"})
 			}
 			if k == opInst && !withHandles && t.Chance(1, 5) {
-				p.start = 1 + t.Choose(4)
+				p.start = 1 + t.Choose(5)
 			}
 			if (k == opCompile || k == opCloseCompiled) && !withHandles {
 				p.bin = 2 // a binary nobody instantiates
@@ -781,7 +806,7 @@ func (c10) Run(t *tape.Tape, cfg sim.Config) (res sim.Result) {
 	// close by another client (half of the time)
 	for c := range plans {
 		for _, p := range plans[c] {
-			if p.start == 4 && t.Chance(1, 2) {
+			if p.start >= 4 && t.Chance(1, 2) {
 				o := (c + 1 + t.Choose(nclients-1)) % nclients
 				at := t.Choose(len(plans[o]) + 1)
 				plans[o] = append(plans[o][:at], append([]planOp{{kind: opRtClose, code: uint32(t.Choose(4))}}, plans[o][at:]...)...)
@@ -909,12 +934,18 @@ func (c10) Run(t *tape.Tape, cfg sim.Config) (res sim.Result) {
 				}))
 				var mod api.Module
 				var err error
-				if p.start == 4 {
+				if p.start >= 4 {
 					actx := experimental.WithMemoryAllocator(nctx, experimental.MemoryAllocatorFunc(func(cap, max uint64) experimental.LinearMemory {
 						memAllocs.Add(1)
 						return &countingMem{frees: &memFrees}
 					}))
-					mod, err = rt.InstantiateModule(actx, cmE, wazero.NewModuleConfig().WithName(p.name))
+					if p.start == 5 {
+						// the start-section function is an imported one
+						mod, err = rt.InstantiateModule(actx, cmF, wazero.NewModuleConfig().WithName(p.name))
+						res.Stat("probe.instantiations_whose_start_section_function_is_imported", 1)
+					} else {
+						mod, err = rt.InstantiateModule(actx, cmE, wazero.NewModuleConfig().WithName(p.name))
+					}
 					startSections++
 				} else if p.start > 0 {
 					cur := simrt.Current()
